@@ -366,8 +366,67 @@ def check_general_boost(ctx: Check, tree: Tree, mats: dict) -> None:
                 "BoostMatrix is symmetric (pure boost, no rotation part)")
 
 
+def check_einsum_printers(ctx: Check, tree: Tree) -> None:
+    """ArrayMultiplication / MatrixMultiplication._numpycode: every printed tensor reaches
+    ONE einsum call in argument order, with the contraction string for that many tensors.
+
+    The contraction strings themselves are built by loops (not decided; the doctests pin
+    n = 1, 2, 3).  A printer of another shape is outside the rule's grammar: ANALYSIS-ERROR,
+    neither pass nor violation."""
+    from ..canon import canon
+    from ..dataflow import RD as _RD
+
+    for cls_name in ("ArrayMultiplication", "MatrixMultiplication"):
+        cls = tree.cls(f"ampform.sympy._array_expressions::{cls_name}")
+        fn = cls.methods.get("_numpycode")
+        if fn is None:
+            raise AnalysisError(f"vanished anchor: {cls_name}._numpycode")
+        rd = _RD(fn.node)
+        rets = [r for r in walk_function(fn.node, nested=False) if isinstance(r, ast.Return)]
+        final = [r for r in rets if isinstance(r.value, ast.JoinedStr)]
+        if len(final) != 1:
+            raise ExtractionError(f"{cls_name}._numpycode: expected exactly one f-string return that builds the einsum call (shape outside the rule's grammar)")
+        js = final[0].value
+        text = "".join(str(v.value) if isinstance(v, ast.Constant) else "\x00" for v in js.values)
+        holes = [v.value for v in js.values if isinstance(v, ast.FormattedValue)]
+        if text.replace(" ", "") != 'einsum("\x00",\x00)' or len(holes) != 2:
+            raise ExtractionError(f"{cls_name}._numpycode: return is not einsum(\"<contraction>\", <tensors>) (shape outside the rule's grammar)")
+        contraction, joined = holes
+        problems = []
+        # the tensor list: list(map(printer._print, self.args)) - all arguments, in order
+        tensor_defs = []
+        if isinstance(joined, ast.Call) and isinstance(joined.func, ast.Attribute) and joined.func.attr == "join" and len(joined.args) == 1:
+            sep = joined.func.value
+            if not (isinstance(sep, ast.Constant) and sep.value.strip() == ","):
+                problems.append(f"tensors are joined with {unparse(sep)} instead of a comma")
+            arg = joined.args[0]
+            if not isinstance(arg, ast.Name):
+                problems.append(f"joins `{unparse(arg)[:40]}`, not the list of all printed tensors")
+            else:
+                tensor_defs = list(rd.reaching(arg))
+        else:
+            raise ExtractionError(f"{cls_name}._numpycode: tensors are not passed as \", \".join(<list>)")
+        for d in tensor_defs:
+            v = unparse(d.value).replace(" ", "") if d.value is not None else ""
+            if v not in {"list(map(printer._print,self.args))", "list(map(printer._print,self.tensors))", "[printer._print(t)fortinself.args]"} or d.kind != "assign":
+                problems.append(f"the tensor list is `{unparse(d.value)[:60] if d.value is not None else d.kind}`, not every argument printed in order")
+        # the contraction: self._create_einsum_subscripts(len(<tensor list>))
+        cdefs = list(rd.reaching(contraction)) if isinstance(contraction, ast.Name) else []
+        cvals = [unparse(d.value).replace(" ", "") for d in cdefs if d.value is not None] or [unparse(contraction).replace(" ", "")]
+        tname = joined.args[0].id if isinstance(joined.args[0], ast.Name) else "?"
+        if not all(v == f"self._create_einsum_subscripts(len({tname}))" for v in cvals):
+            problems.append(f"contraction is `{cvals}`, not _create_einsum_subscripts(len({tname}))")
+        # short cuts for 0 / 1 tensors
+        shortcuts = {unparse(r.value) for r in rets if r is not final[0]}
+        if not shortcuts <= {"''", f"{tname}[0]"}:
+            problems.append(f"unexpected early returns {sorted(shortcuts)}")
+        ctx.verdict(not problems, "R-EINSUM", f"{cls.qual}._numpycode::single-ordered-einsum", tree.loc(fn.node),
+                    f"{cls_name}._numpycode == einsum(<contraction for n tensors>, <all n printed arguments in order>)", problems or None)
+
+
 def run(ctx: Check, tree: Tree) -> None:
     ctx.decided += [
+        "R-EINSUM: Array/MatrixMultiplication print ONE einsum over all printed arguments in order with the contraction for that many tensors (the contraction strings themselves are not decided)",
         "R-PRINT: every value interpolated into generated code by the printer methods passes printer._print (or is a literal / class-level literal)",
         "R-TERM: as_explicit() == matrix laid out by the numpy template for the arguments evaluate() passes (BoostZ, RotationY, RotationZ, Boost: 4x16 entries); metric literal; NegativeMomentum = eta·p",
         "R-LORENTZ: R^T eta R = eta for both rotations (mod cos^2+sin^2=1), B_z^T eta B_z = eta, handedness / direction roles; the general boost after unfolding beta_i = p_i/E, B(p)p = (m,0,0,0), symmetry",
@@ -382,3 +441,4 @@ def run(ctx: Check, tree: Tree) -> None:
     check_metric(ctx, tree)
     check_lorentz(ctx, tree, mats)
     check_general_boost(ctx, tree, mats)
+    check_einsum_printers(ctx, tree)
